@@ -756,6 +756,7 @@ type c5case struct {
 }
 
 type c5out struct {
+	skip    bool // an embedded value is erroneous on its own (region the model does not represent)
 	cs      c5case
 	res     c5res
 	sole    string // class of `{schema} & data`
@@ -768,6 +769,10 @@ type c5out struct {
 func c5run(cs c5case, direct bool) c5out {
 	o := c5out{cs: cs}
 	o.res = c5eval(c5source(cs.schema, cs.data), true)
+	if o.res.class == "err" && c5embeddedValueFails(cs.schema) {
+		o.skip = true
+		return o
+	}
 	if !direct {
 		return o
 	}
@@ -784,7 +789,43 @@ func c5run(cs c5case, direct bool) c5out {
 	return o
 }
 
+// c5embeddedValueFails: some embedded expression of the schema, evaluated on its own by the
+// implementation, is already an error (e.g. a closedness violation between two of its own
+// conjuncts).  The model does not represent errors internal to embedded values (an enclosing
+// struct may "widen" them away in the model), so such cases are counted and left out.
+func c5embeddedValueFails(e *c5e) bool {
+	return e.anyNode(func(n *c5e) bool {
+		if n.op != '{' {
+			return false
+		}
+		for _, d := range n.decls {
+			if d.kind != 'e' {
+				continue
+			}
+			if c5standaloneErr(c5source(d.v, nil)) {
+				return true
+			}
+		}
+		return false
+	})
+}
+
+func c5standaloneErr(src string) (bad bool) {
+	defer func() {
+		if r := recover(); r != nil {
+			bad = true
+		}
+	}()
+	ctx := cuecontext.New()
+	x := ctx.CompileString(src).LookupPath(cue.ParsePath("x"))
+	return x.Validate() != nil
+}
+
 func c5emit(c *Cfg, o c5out) {
+	if o.skip {
+		c.Count("skipped/embedded-value-erroneous-on-its-own")
+		return
+	}
 	sw, dw := o.cs.schema.Word(), o.cs.data.Word()
 	// known-finding classes: only cases the implementation ACCEPTS can belong to them
 	tag := ""
